@@ -50,4 +50,14 @@ theorem dom_toCfg (d : Def) (h : c04Checks d = true) (secret : Bytes) (orc : Nat
   rw [hm] at t1
   exact absurd t1.1.1.2 (by simp)
 
+theorem dom_toCfgNoAsk (d : Def) (h : c04Checks d = true) (secret : Bytes) (orc : Nat → Orders)
+    (ho : ∀ t, (orc t).Valid) : Dom (toCfgNoAsk d secret orc) ∧ isTree (toCfgNoAsk d secret orc).L = true := by
+  obtain ⟨hd, ht⟩ := dom_toCfg d h secret orc ho
+  have hasks : asksOK (toCfgNoAsk d secret orc) = true := by
+    unfold asksOK toCfgNoAsk
+    rw [List.all_eq_true]
+    intro l _
+    simp
+  exact ⟨⟨hd.tree, hd.noUnknown, hd.recog, hd.leaves, hd.cmds, hasks, ho⟩, ht⟩
+
 end Scrapli.Platform
